@@ -32,11 +32,11 @@ var c09UniverseFull = []rs{
 	{ResourceType: "repository", Resource: "a", Action: "pulse"}, // unknown action sorting between pull and push
 	{ResourceType: "other", Resource: "a", Action: "y"},          // another type naming the same resource as a repository (printing must not merge them)
 	{ResourceType: "zz"}, // opaque single word
-	{ResourceType: "zz", Resource: "r", Action: "act"}, // a fifth member of the "others" list, sorting last
+	{ResourceType: "zz", Resource: "r", Action: "act"},          // a fifth member of the "others" list, sorting last
+	{ResourceType: "repository", Resource: "b", Action: "push"}, // a second action on the second repository (results that share action storage differ)
 	// thorough only:
 	{ResourceType: "repository", Resource: "a", Action: "delete"},
 	{ResourceType: "registry", Resource: "catalog", Action: "pull"},
-	{ResourceType: "repository", Resource: "", Action: "push"},
 	{ResourceType: "repository", Resource: "a/b", Action: "pull"},
 	{ResourceType: "repository", Resource: "catalog", Action: "pull"}, // a repository that happens to be called like the catalog sentinel
 }
@@ -241,7 +241,7 @@ func permute(xs []rs, f func([]rs)) {
 }
 
 func c09Check(r *vcore.Run) vcore.Coverage {
-	n := 9
+	n := 10
 	if r.Thorough() {
 		n = 14
 	}
@@ -362,32 +362,37 @@ func c09Check(r *vcore.Run) vcore.Coverage {
 	// results are values: a later Union on the same receiver must not change an earlier result
 	// (all triples over a sub-universe; receivers are private to the worker so a shared backing
 	// array shows deterministically)
-	// quick: the five members of the "others" list plus one repository action; thorough: eight elements
-	tIdx := []int{4, 5, 6, 7, 8, 0}
+	// two sub-universes: the five members of the "others" list plus one repository action, and the
+	// repository-shaped elements (two repositories x two actions, the catalog, one unknown action);
+	// thorough: one 8-element sub-universe on top
+	subs := [][]int{{4, 5, 6, 7, 8, 0}, {0, 1, 2, 9, 3, 5}}
 	if r.Thorough() {
-		tIdx = []int{0, 1, 3, 4, 5, 6, 7, 8}
-	}
-	expand := func(t uint32) (m uint32) {
-		for k, i := range tIdx {
-			if t&(1<<k) != 0 {
-				m |= 1 << i
-			}
-		}
-		return m
-	}
-	tsets := uint32(1) << len(tIdx)
-	tmasks := make([]uint32, tsets)
-	for t := range tmasks {
-		tmasks[t] = expand(uint32(t))
+		subs = append(subs, []int{0, 1, 2, 9, 4, 5, 6, 7})
 	}
 	var triples int64
-	vcore.ParallelN(int(tsets), func(i int) {
-		n := e.checkTriples(r, tmasks[i], tmasks)
-		atomic.AddInt64(&triples, n)
-	})
+	for _, tIdx := range subs {
+		tIdx := tIdx
+		expand := func(t uint32) (m uint32) {
+			for k, i := range tIdx {
+				if t&(1<<k) != 0 {
+					m |= 1 << i
+				}
+			}
+			return m
+		}
+		tsets := uint32(1) << len(tIdx)
+		tmasks := make([]uint32, tsets)
+		for t := range tmasks {
+			tmasks[t] = expand(uint32(t))
+		}
+		vcore.ParallelN(int(tsets), func(i int) {
+			n := e.checkTriples(r, tmasks[i], tmasks)
+			atomic.AddInt64(&triples, n)
+		})
+	}
 	evals += triples
 	r.Notes["union_triples"] = triples
-	r.Notes["union_triples_universe"] = len(tIdx)
+	r.Notes["union_triples_subuniverses"] = subs
 	r.Sample("pair", e.mkCase("pair", 0b00010011, 0b00100110, ""))
 	r.Sample("universe", func() []string {
 		var s []string
